@@ -214,7 +214,9 @@ Theorem C20_accept_sound : forall k0 t1 u k t2 t3 q t4 x t5,
   x = Some (canon k).
 Proof. exact accept_sound. Qed.
 
-(* the driver says `viol` for a scenario only when [prop_violb] holds on its trace.  [prop_violb] is the
+(* the driver says `viol request-after-successful-use-in-other-keyspace` only when [prop_violb] holds on the
+   trace (its other scenario violations, `viol statement-text` and `viol invalid-name-accepted`, are decided by
+   hand-written OCaml over [use_statement] / [valid_nameb]).  [prop_violb] is the
    declarative property: sound (every `viol` rests on the decomposition of C20_accept_sound with a wrong
    keyspace), complete for traces in which the call does not return twice, and never accepted *)
 Theorem C20_viol_sound : forall tr, prop_violb tr = true -> decl_viol tr.
